@@ -61,6 +61,7 @@ Inductive outcome := Ok | Refused (errno : N) | Fault (* write into the read-onl
 Inductive call :=
 | CRestrict | CInsertMisc | CAllocGroup | CInsertGroup | CDistancesAdd | CDistancesRemove | CDistancesRemoveByDepth | CDiffApply
 | CMemattrRegister | CMemattrSetValue | CCpukindsRegister | CRefresh | CObjAddInfo
+| CDistancesReleaseRemove | CObjSetSubtype
 | CAllow | CTopologyInfosAdd | CSetUserdata
 | CDump | CExportXml | CDistancesQuery | CMemattrQuery | CCpukindsQuery | CCheck | CDup.
 
@@ -74,7 +75,8 @@ Inductive kind_of_call := Modifier | Permitted | Consulting.
 Definition call_kind (c : call) : kind_of_call :=
   match c with
   | CRestrict | CInsertMisc | CAllocGroup | CInsertGroup | CDistancesAdd | CDistancesRemove | CDistancesRemoveByDepth | CDiffApply
-  | CMemattrRegister | CMemattrSetValue | CCpukindsRegister | CRefresh | CObjAddInfo => Modifier
+  | CMemattrRegister | CMemattrSetValue | CCpukindsRegister | CRefresh | CObjAddInfo
+  | CDistancesReleaseRemove | CObjSetSubtype => Modifier
   | CAllow | CTopologyInfosAdd | CSetUserdata => Permitted
   | _ => Consulting
   end.
@@ -83,13 +85,15 @@ Definition call_kind (c : call) : kind_of_call :=
 Definition has_guard (c : call) : bool :=
   match c with
   | CRestrict | CInsertMisc | CAllocGroup | CInsertGroup | CDistancesAdd | CDistancesRemove | CDistancesRemoveByDepth | CDiffApply
-  | CMemattrRegister | CMemattrSetValue | CCpukindsRegister | CRefresh => true
+  | CMemattrRegister | CMemattrSetValue | CCpukindsRegister | CRefresh
+  | CDistancesReleaseRemove | CObjSetSubtype => true          (* fix 4607909 *)
   | _ => false
   end.
 (* what an unguarded call writes *)
 Definition writes (include_disallowed : bool) (c : call) : option region :=
   match c with
   | CMemattrRegister | CMemattrSetValue | CCpukindsRegister | CObjAddInfo => Some Mapped   (* realloc / store in arrays of the mapping *)
+  | CDistancesReleaseRemove | CObjSetSubtype => Some Mapped                                  (* unlink + free of mapped blocks *)
   | CRefresh => Some Mapped                                                                 (* cache flags and cached pointers *)
   | CAllow => if include_disallowed then Some (if adopter_has_private_allowed_sets then Private else Mapped) else None
   | CTopologyInfosAdd | CSetUserdata => Some Private
@@ -105,7 +109,8 @@ Definition adopted_call (include_disallowed : bool) (c : call) : outcome :=
 
 Definition all_calls : list call :=
   [CRestrict; CInsertMisc; CAllocGroup; CInsertGroup; CDistancesAdd; CDistancesRemove; CDistancesRemoveByDepth; CDiffApply;
-   CMemattrRegister; CMemattrSetValue; CCpukindsRegister; CRefresh; CObjAddInfo; CAllow; CTopologyInfosAdd; CSetUserdata;
+   CMemattrRegister; CMemattrSetValue; CCpukindsRegister; CRefresh; CObjAddInfo; CDistancesReleaseRemove; CObjSetSubtype;
+   CAllow; CTopologyInfosAdd; CSetUserdata;
    CDump; CExportXml; CDistancesQuery; CMemattrQuery; CCpukindsQuery; CCheck; CDup].
 
 (* names of the harness lines "call <name> ..." *)
@@ -117,7 +122,7 @@ Definition call_name (c : call) : string :=
   | CCpukindsRegister => "cpukinds_register" | CRefresh => "refresh" | CObjAddInfo => "obj_add_info" | CAllow => "allow_all"
   | CTopologyInfosAdd => "topology_infos_add" | CSetUserdata => "set_userdata" | CDump => "dump" | CExportXml => "export_xml"
   | CDistancesQuery => "distances_query" | CMemattrQuery => "memattr_query" | CCpukindsQuery => "cpukinds_query" | CCheck => "check"
-  | CDup => "dup_adopted"
+  | CDup => "dup_adopted" | CDistancesReleaseRemove => "distances_release_remove" | CObjSetSubtype => "obj_set_subtype"
   end%string.
 Definition outcome_code (o : outcome) : N := match o with Ok => 0 | Refused e => e | Fault => 999 end.
 Definition model_calls (include_disallowed : bool) : list (string * N) :=
